@@ -670,17 +670,87 @@ fn scripted() -> Vec<(&'static str, Vec<u8>)> {
     v
 }
 
+/// R6, at the receiving daemon: datagrams are read into a fixed buffer; only the bytes that
+/// arrived may be decoded. Every proper prefix of a valid response (cut inside a header count's
+/// worth of records, inside RDATA, inside a name) is malformed: a daemon with a hostname search
+/// and a browse open must not act on it - whatever it would "read" beyond the cut was never in
+/// the datagram. The complete datagram, sent last, must be acted on (so the cut ones could have been).
+pub fn truncation_case(seed: u64, thorough: bool, l: &mut Local) {
+    use crate::scen;
+    use crate::world::*;
+    let mut rng = Rng::new(seed);
+    let mut w = World::new(seed);
+    w.set_stepping(Stepping::Lazy);
+    let h = w.add_host(scen::single_v4());
+    w.set_ip_check_interval(h, 3600);
+    let host_name = format!("trunc{}.local.", rng.below(1000));
+    let Some(hchan) = w.resolve_hostname(h, &host_name, None) else { return };
+    let Some(bchan) = w.browse(h, "_t._udp.local.") else { return };
+    w.run_for(50);
+    let mut m = wire::Message::response();
+    let owner = wire::name(host_name.trim_end_matches('.'));
+    let last_octet = 1 + rng.below(250) as u8;
+    // (addresses without zero bytes: padding read as data shows up as zeros)
+    let mut svc = scen::Svc::new("_t._udp.local.", "truncated", host_name.trim_end_matches('.'), [10, 7, 9, last_octet]);
+    svc.v4 = vec![[10, 7, 9, last_octet]];
+    match rng.below(3) {
+        0 => m.answers.push(wire::a(&owner, 120, [10, 7, 9, last_octet])),
+        1 => m.answers = svc.records(),
+        _ => {
+            m.answers.push(svc.ptr());
+            m.additionals = svc.records()[1..].to_vec();
+        }
+    }
+    let full = wire::encode(&m, if rng.chance(1, 2) { wire::Compression::Max } else { wire::Compression::None });
+    let mut cuts: Vec<usize> = (1..full.len()).collect();
+    if !thorough {
+        rng.shuffle(&mut cuts);
+        cuts.truncate(24);
+        cuts.sort();
+    }
+    l.evaluations += 1;
+    l.distinct.insert(util::fnv_str(&format!("trunc|{}|{}", m.answers.len(), m.additionals.len())));
+    let events = |w: &World| w.trace.obs(hchan).filter(|(_, o)| matches!(o, Obs::AddrFound(..))).count() + w.trace.obs(bchan).filter(|(_, o)| matches!(o, Obs::Found(..) | Obs::Resolved(..))).count();
+    for cut in cuts {
+        let before = events(&w);
+        w.inject(h, 2, scen::peer4(44), full[..cut].to_vec());
+        w.settle();
+        w.run_for(5);
+        l.act("R6");
+        if w.trace.deaths().any(|d| matches!(d.ev, Ev::Death { panicked: true, .. })) {
+            l.violate(Violation::new("R6", "R6/daemon-died-on-truncated-datagram", format!("the daemon died on a response cut after {cut} of {} bytes", full.len())).with(json!({"hex": wire::hex(&full), "cut": cut})));
+            return;
+        }
+        if events(&w) != before {
+            let what: Vec<String> = w.trace.obs(hchan).chain(w.trace.obs(bchan)).map(|(_, o)| format!("{o:?}")).filter(|s| !s.contains("Started")).collect();
+            l.violate(
+                Violation::new("R6", "R6/truncated-datagram-acted-on", format!("a response cut after {cut} of {} bytes (malformed: the rest was never received) produced events: {:?}", full.len(), what))
+                    .with(json!({"hex": wire::hex(&full), "cut": cut, "events": what})),
+            );
+            return;
+        }
+    }
+    // the control
+    let before = events(&w);
+    w.inject(h, 2, scen::peer4(44), full.clone());
+    w.settle();
+    w.run_for(5);
+    if events(&w) == before {
+        l.inconclusive.push(format!("the complete datagram of a C01 truncation case produced no event (seed {seed})"));
+    }
+}
+
 pub fn run(report: &Report, tier: &Tier) {
     report.set_rule(
         "inputs: G1 uniform random bytes, G2 mutations/truncations/splices of valid packets (W-encoded and crate-encoded), \
          G3 grammar with hostile counts/RDLENGTH/pointer graphs, G5 label runs laid over one another and chained by backward pointers \
-         (2..32 runs over 1..130 63-byte labels), G4 every string over a 9-byte name alphabet up to a fixed \
+         (2..32 runs over 1..130 63-byte labels), R6: every (quick: 24 sampled) proper prefix of valid responses delivered to a running daemon with a hostname search and a browse open; G4 every string over a 9-byte name alphabet up to a fixed \
          length after four fixed headers, plus scripted inputs; a case is distinct by (generator, log2 length, decoder outcome class) \
          and non-trivial if it is at least a full header long",
     );
     report.assume("the reference parser W (harness/src/wire.rs) is correct; it shares no code with the crate");
     report.assume("loops outside read_name are bounded by the 16-bit section counts (checked by reading; R2 counts read_name steps)");
-    for r in ["R1", "R2", "R3", "R4", "R5"] {
+    for r in ["R1", "R2", "R3", "R4", "R5", "R6"] {
         report.floor(r, 100);
     }
 
@@ -738,6 +808,11 @@ pub fn run(report: &Report, tier: &Tier) {
         json!({"alphabet": ALPHABET, "max_len": max_len, "strings": total, "headers": 4,
                "exhaustive": done == chunks, "chunks_done": done, "chunks": chunks}),
     );
+    // R6: truncated datagrams at a running daemon
+    let nt: u64 = if thorough { 3_000 } else { 200 };
+    run_parallel(report, nt, threads(), tier.budget_s * 0.05, |i, l| {
+        truncation_case(util::mix(seed, 6u64 << 40 | i), thorough, l);
+    });
     let mut l = Local::default();
     l.samples.push(json!({"generator":"scripted-valid","hex": wire::hex(&scripted()[0].1)}));
     let mut rng = Rng::new(seed);
